@@ -75,10 +75,14 @@ def run(res, args):
     impl, inc_i = corr.run_lines(h, lines, env=b.env())
     model, inc_m = corr.run_lines(drv, lines)
 
+    # ---- second, Lean-side oracle: the strict BNF reader + Spec.events of Spec/Wbxml.lean (the very
+    # definitions theorem parse_ser is about) applied to the same octets
+    lspec, _ = corr.run_lines(drv, ['SPEC ' + ln.split(' ', 1)[1] for ln in spec_lines])
     # ---- evaluate
     nspec = len(spec_lines)
     oracle_fail, corr_diff = [], []
     err_kinds = {}
+    lean_spec_checked = 0
     for i, ln in enumerate(lines):
         a, m = impl[i], model[i]
         res.add_eval(ln, nontrivial=(a or '').startswith('R 0 ;'))
@@ -87,9 +91,14 @@ def run(res, args):
             err_kinds[code] = err_kinds.get(code, 0) + 1
         if i < nspec and a != expected[i]:
             oracle_fail.append(i)
+        if i < nspec and lspec[i] and lspec[i].startswith('S 1 1 ; '):
+            lean_spec_checked += 1
+            if a != 'R 0 ; ' + lspec[i][len('S 1 1 ; '):] and i not in oracle_fail:
+                oracle_fail.append(i); expected[i] = 'R 0 ; ' + lspec[i][len('S 1 1 ; '):] + '   (Lean Spec.events)'
         if corr.canon_err(a) != corr.canon_err(m):
             corr_diff.append(i)
     res.coverage['spec_documents'] = nspec
+    res.coverage['spec_documents_also_checked_by_lean_spec'] = lean_spec_checked
     res.coverage['robustness_documents'] = len(rob)
     res.coverage['result_codes_hit'] = err_kinds
     allrows = sum(len(v) for l in d['langs'] for k, v in todo_rows(d, l).items() if k != 'vals' or True)
